@@ -79,6 +79,11 @@ def _work(args):
     # byte-level inputs: not valid UTF-8, NUL bytes, BOMs
     byte_inputs = [("non-utf8", t.encode("utf8", "replace") + rng.choice([b"\xe9\n", b"\xff\xfe", b"\x80x = 1\n", b"\xc3"]))
                    for _, t in texts[:: 9]]
+    # every byte value that is not ASCII, alone and all together (decoding fall-backs must be total)
+    lead = b"# " if lang == "Python" else b"// "
+    byte_inputs.append(("all-high-bytes", lead + bytes(range(0x80, 0x100)) + b"\n"))
+    for b in rng.sample(range(0x80, 0x100), 12) + [0x81, 0x8d, 0x8f, 0x90, 0x9d, 0xa0, 0xff]:
+        byte_inputs.append(("single-high-byte", lead + b"x" + bytes([b]) + b"y\n"))
     root = tempfile.mkdtemp(prefix=f"c03_{lang}_", dir=tmp)
     other = tempfile.mkdtemp(prefix="c03_other_", dir=tmp)
     sub = os.path.join(root, "pkg")
